@@ -70,6 +70,14 @@ def gen(r, tier, sub):
             for s in ("plain", "-2", "-1", "0", "1"):
                 yield "%s %s" % (w, s)
         return
+    # machine combiners whose shared combine buffer has spilled: the keys of the second task meet those of the first only when
+    # the worker merges the spilled runs to write the buffer out (CommitCombiner, in a goroutine of its own)
+    A = list(range(1000))
+    B = list(range(50)) + list(range(100000, 100950))
+    inter = " ".join("%d:1 %d:1" % (a, b) for a, b in zip(A, B))
+    for k, once in ((0, "always"), (0, "once"), (7, "always"), (30, "once")):
+        for cfg in ("bm M1 P1 MC", "bm M2 P1 MC", "bm M1 P1"):
+            yield "%s CH1 ;; FAULT N1 panic %d %s ; N0=reader 2 5 %s ; N1=reduce N0 add ; OUT N1 ;; %s" % (cfg, k, once, inter, HEALTHY)
     # the combine function failing at *every* call position of one Reduce whose keys recur (task-local table, its overflow into
     # the per-partition buffer, the flush at end-of-stream, the consumer's merge): a sweep instead of the sampled positions
     sweep_rows = " ".join("%d:%d" % ((i * 7) % 23, i) for i in range(92))
@@ -119,6 +127,8 @@ def t2(chk, wc, tier, seed):
     protected("local.bufferOutput", "exec/local.go", "func bufferOutput(", ["out.Read("])
     protected("local.depReaders", "exec/local.go", "func (l *localExecutor) depReaders(", ["combiner.Combine(", "reader.Read("])
     protected("worker.Run", "exec/bigmachine.go", "func (w *worker) Run(", ["task.Do(", "w.runCombine("])
+    # (D29) writing a machine combiner out merges its spilled runs with the user's combine function, in goroutines of its own
+    protected("worker.writeCombiner", "exec/bigmachine.go", "func (w *worker) writeCombiner(", ["combiner.WriteTo("])
     try:
         b = body("exec/bigmachine.go", "func (w *worker) runCombine(")
         # every `combiner.Combine(` call sits in a function literal that defers the hand-back
@@ -142,7 +152,7 @@ def t2(chk, wc, tier, seed):
     gen2 = "\ndef combinerResetOnFailureG : Bool := %s\ndef combinerResetRunsAfterDecrementG : Bool := %s" % (
         "true" if reset else "false", "true" if order else "false")
     gen = "def protectionG : List (String × Bool) := [%s]" % ", ".join('("%s", %s)' % (n, "true" if v else "false") for n, v in rows)
-    ties = [("all_sites_protected", "theorem all_sites_protected : protectionG.length = 5 ∧ ∀ s ∈ protectionG, s.2 = true := by decide",
+    ties = [("all_sites_protected", "theorem all_sites_protected : protectionG.length = 6 ∧ ∀ s ∈ protectionG, s.2 = true := by decide",
              "exec/local.go bufferOutput, depReaders; exec/bigmachine.go worker.Run, runCombine: recover before user code, deferred combiner hand-back")]
     ties.append(("combiner_reset_on_failure",
                  "theorem combiner_reset_on_failure : combinerResetOnFailureG = true ∧ combinerResetRunsAfterDecrementG = true := by decide",
